@@ -2,6 +2,7 @@
 C02 — method rows are exactly what the place notation defines.
 -/
 import Wheatley.Props.C04
+import Wheatley.Lemmas.RoundTripH
 namespace Wheatley.C02
 open Wheatley.C04
 
@@ -109,5 +110,83 @@ theorem plain_bob_minor :
       courseLength (some g) 100 = some 60 := by
   refine ⟨(mkPN 6 "&x16x16x16,12".toList none none 0 none).get (by decide +kernel), by simp, ?_, ?_⟩ <;>
     decide +kernel
+
+/-! ### The notation round trip
+
+`Wheatley.RoundTrip` (lemma files `Lemmas/RoundTrip*.lean`) describes a notation by its blocks
+(`Block`: an optional `&` / `+`, then changes `Tok`: a cross written `x` or `-` with any number of dots
+before and after it, or the bell symbols of a place change), writes it out (`textOf`: a dot only between
+two place changes, blocks joined by commas) and says what it stands for (`denoteAll`: in a comma-joined
+notation every block palindromic unless marked `+`, a single block palindromic only when marked `&`). -/
+
+open Wheatley.RoundTrip in
+/-- **The round trip**: a notation written from its blocks — `x` or `-` for a cross with any number of
+dots around it, a dot between two place changes, `&` / `+` in front of a block, blocks joined by commas —
+is converted by `convert_pn` to exactly the changes the conventions define. -/
+theorem notation_round_trip (bs : List Block) (hne : bs ≠ []) (h : ∀ b ∈ bs, b.WF) :
+    convertPN (textOf bs) = some (denoteAll bs) := by
+  cases bs with
+  | nil => exact absurd rfl hne
+  | cons b r =>
+    cases r with
+    | nil =>
+      have hb := h b (by simp)
+      have hnc : (textOf [b]).contains ',' = false := by
+        simp only [textOf, List.map_cons, List.map_nil, joinWith]
+        have := text_nocomma b hb
+        simpa using this
+      unfold convertPN
+      rw [hnc]
+      simp only [Bool.false_eq_true, if_false, textOf, List.map_cons, List.map_nil, joinWith]
+      rw [RoundTrip.convertBlock_text b hb false]
+      simp [denoteAll]
+    | cons b2 r2 =>
+      unfold convertPN
+      have hc : (textOf (b :: b2 :: r2)).contains ',' = true := by
+        simp only [textOf, List.map_cons]; exact joinWith_contains _ _ _ _
+      rw [hc]
+      simp only [if_true]
+      have hsplit : splitOn ',' (textOf (b :: b2 :: r2)) = (b :: b2 :: r2).map Block.text := by
+        apply splitOn_joinWith
+        · simp
+        · intro p hp
+          simp only [List.mem_map] at hp
+          obtain ⟨x, hx, rfl⟩ := hp
+          exact text_nocomma x (h x hx)
+      rw [hsplit, mapM_blocks _ h]
+      simp [denoteAll]
+
+
+open Wheatley.RoundTrip in
+/-- … hence a generator built from a written notation rings the changes the conventions define
+(`plain_rows` then gives every row). -/
+theorem generator_rings_the_notation (bs : List Block) (hne : bs ≠ []) (h : ∀ b ∈ bs, b.WF)
+    (stage : Nat) (bob single : Option (List (Int × List Char))) (startIndex : Int)
+    (custom : Option (List Char)) (g : Gen)
+    (hg : mkPN stage (textOf bs) bob single startIndex custom = some g) :
+    ∃ c : PNCfg, g.kind = .pn c ∧ c.methodPN = denoteAll bs ∧ c.stage = stage ∧ c.startIndex = startIndex := by
+  unfold mkPN at hg
+  rw [notation_round_trip bs hne h] at hg
+  simp only [] at hg
+  split at hg
+  · cases hg
+  · split at hg
+    · cases hg
+    · split at hg
+      · simp only [Option.some.injEq] at hg
+        subst hg
+        exact ⟨_, rfl, rfl, rfl, rfl⟩
+      · cases hg
+
+open Wheatley.RoundTrip in
+/-- Non-vacuity: Plain Bob Minor written `&x.16-16..x.16,+12` (dots at will around the crosses). -/
+example :
+    let bs : List Block :=
+      [{ pre := some '&', first := .cross 'x' 0 1,
+         rest := [.pl [1, 6], .cross '-' 0 0, .pl [1, 6], .cross 'x' 2 1, .pl [1, 6]] },
+       { pre := some '+', first := .pl [1, 2], rest := [] }]
+    textOf bs = "&x.16-16..x.16,+12".toList ∧
+    denoteAll bs = [[], [1, 6], [], [1, 6], [], [1, 6], [], [1, 6], [], [1, 6], [], [1, 2]] := by
+  decide
 
 end Wheatley.C02
